@@ -133,6 +133,10 @@ func (h accountsResourceHandler) Expand(opts common.ResourceQuery[any], property
 		if !h.store.ledger.HasFeature(features.FeatureMovesHistoryPostCommitEffectiveVolumes, "SYNC") {
 			return nil, nil, common.NewErrInvalidQuery("feature %s must be 'SYNC' to use effectiveVolumes", features.FeatureMovesHistoryPostCommitEffectiveVolumes)
 		}
+	default:
+		// Nothing else can be expanded on an account. The property comes from the client and names a
+		// column below: it must never reach the SQL text (transactions ignore unknown expansions too).
+		return nil, nil, nil
 	}
 
 	selectRowsQuery := h.store.newScopedSelect().
